@@ -13,6 +13,7 @@ import (
 // real regime and addon definitions (imported from the initialised registry) writes to none of them, and
 // doing it twice gives the same answer.
 func H_C15_InvoiceHelpers() {
+	vrt.Unwind(5000) // the real tag and scenario lists have dozens of entries
 	regimes := []l10n.TaxCountryCode{"ES", "IT", "MX", "PT"}
 	addons := [][]cbc.Key{{"es-facturae-v3"}, {"it-sdi-v1"}, {"mx-cfdi-v4"}, {"de-xrechnung-v3"}, {"eu-en16931-v2017", "es-tbai-v1"}}
 	r := regimes[vrt.Choice("regime", len(regimes))]
